@@ -810,6 +810,7 @@ def inventory(fn, rule, items, metas, root=None, fixed=None, required=True, orde
     # report: with the best partial binding, which items have no matching statement
     binding = best['binding']
     matched = best['matched']
+    n_missing = 0
     for inst, pat, src in pats:
         if inst in matched:
             fn.ob(rule, inst, True, matched[inst], key=inst)
@@ -822,12 +823,20 @@ def inventory(fn, rule, items, metas, root=None, fixed=None, required=True, orde
         if hit is not None:
             fn.ob(rule, inst, True, hit, key=inst)
         else:
+            n_missing += 1
             # nearest statement: same statement kind and same target, for the diagnostic
             near = [s for s, nf in nfs if nf and pat and nf[0] == pat[0] and (
                 pat[0] != 'assign' or sym.unify(pat[1], nf[1], binding, metas) is not None)]
             fn.ob(rule, inst, False, near[0] if near else fn.ast,
                   detail='no statement of the documented form `%s`%s' % (
                       src.strip(), ('; nearest: `%s`' % norm_stmt(near[0])) if near else ''), key=inst)
+    if n_missing == 0:
+        # every step has a candidate statement of its own, yet no assignment of all steps to statements under one consistent
+        # naming was found (two documented steps on one statement, roles that cannot be named consistently, or the search
+        # gave up): the run conditions and definitions of the steps cannot be decided, which is reported, never passed over
+        fn.ob(rule, 'the documented steps are all present together (one consistent reading of the function)', False, fn.ast,
+              detail='each documented step matches some statement, but not all of them at once%s' % (
+                  ' (search budget exhausted)' if budget[0] > 60000 else ''), key='consistent-reading')
     out = dict(binding)
     out['__matched__'] = dict(matched)
     return out
